@@ -546,6 +546,17 @@ class Engine:
         m = re.fullmatch(r'(-?\d+)_?([iu](?:8|16|32|64|128|size))?', c)
         if m:
             return VScalar(int(m.group(1)))
+        consts = getattr(self.functions, 'consts', None)
+        if consts:
+            # a path to a literal constant item of the crate (`const YIELD_EVERY: usize = 32;`)
+            key = strip_generics(c).split('::')[-1]
+            lit = consts.get(key)
+            if lit is not None and re.fullmatch(r'[\w:<>, ]+', c.strip()):
+                if lit in ('true', 'false'):
+                    return VScalar(lit == 'true')
+                m2 = re.fullmatch(r'(-?\d+)_?([iu](?:8|16|32|64|128|size))?', lit)
+                if m2:
+                    return VScalar(int(m2.group(1)))
         return VConst(c)
 
     def eval_rvalue(self, st, frame, rv, dest_ty=None):
